@@ -230,3 +230,17 @@ Proof. unfold discipline_b, discipline. intros H s1 s2 H1 H2 [Hloc Hw].
   unfold pair_ok in H. rewrite Hloc, Nat.eqb_refl in H.
   assert (site_write s1 || site_write s2 = true) by (destruct Hw as [-> | ->]; [reflexivity|apply orb_true_r]).
   rewrite H0 in H. cbn in H. apply common_excl_spec. exact H. Qed.
+
+(* ---- lock order: a ranking that every nesting edge respects rules out every cycle of nested acquisitions, hence every
+   circular wait between goroutines that each hold one lock of the cycle and ask for the next ---- *)
+Lemma nested_rank rank edges : order_ok rank edges = true ->
+  forall a b, nested edges a b -> index_of a rank < index_of b rank.
+Proof.
+  intros H a b P. induction P as [a b Hin|a b c _ IH1 _ IH2].
+  - unfold order_ok in H. rewrite forallb_forall in H. specialize (H (a, b) Hin). cbn in H.
+    apply Nat.ltb_lt in H. exact H.
+  - lia.
+Qed.
+
+Theorem lock_order_acyclic rank edges : order_ok rank edges = true -> forall a, ~ nested edges a a.
+Proof. intros H a P. pose proof (nested_rank rank edges H a a P). lia. Qed.
